@@ -94,4 +94,47 @@ example : documentedFacing.lookup "FacingDirectlyAwayFrom" = some (true, true, f
 
 end
 
+/-! ## `facing H` with `H` a plain number, and why the local angles cannot be short-cut
+
+(round 3: an independent seeded change gave `facing <number>` a fast path "yaw = H − parent yaw, pitch = roll = 0") -/
+
+section field
+variable {α : Type} [Field α]
+
+/-- the local orientation that `facing T` must specify is *unique*: whatever local orientation `L` composes with the
+    parent `P` to the requested global orientation `T` is `P⁻¹ * T` — so any short cut that computes the local angles
+    differently (e.g. from the yaw difference alone) is correct only where it agrees with `P⁻¹ * T` -/
+theorem facing_local_unique (p t l : Mat3 α) (hp : p.IsRot) (h : p.mul l = t) : l = facingLocal p t := by
+  rw [facingLocal, ← h, ← Mat3.mul_assoc', hp.2.1, Mat3.one_mul']
+example : (rotZ (⟨0, 1⟩ : Ang Rat)).mul (rotZ ⟨0, -1⟩) = rotZ Ang.zero := by
+  ext <;> unfold_frames <;> norm_num
+
+/-- `facing h` with `h` a plain number (the heading `h`, i.e. the orientation `rotZ h`): for EVERY parent orientation
+    `P` — pitched and rolled ones included — if `(y, pt, r)` are Euler angles of `P⁻¹ * rotZ h`, the object's global
+    orientation is `rotZ h`: its forward axis is the horizontal direction `(−sin h, cos h, 0)`, its up axis is `+Z` -/
+theorem facing_number_global (pos : Vec3 α) (p : Mat3 α) (hp : p.IsRot) (h y pt r : Ang α)
+    (he : euler y pt r = facingLocal p (rotZ h)) :
+    (OPoint.mk pos p y pt r).orientation = rotZ h ∧
+    (OPoint.mk pos p y pt r).orientation.mulVec Vec3.ey = ⟨-h.s, h.c, 0⟩ ∧
+    (OPoint.mk pos p y pt r).orientation.mulVec Vec3.ez = Vec3.ez := by
+  have ho := facing_global_euler pos p (rotZ h) hp y pt r he
+  rw [ho]
+  exact ⟨rfl, (heading_convention h).1, (heading_convention h).2.2⟩
+example : euler (⟨0, -1⟩ : Ang Rat) Ang.zero Ang.zero = facingLocal (rotZ ⟨0, 1⟩) (rotZ Ang.zero) := by
+  ext <;> simp only [facingLocal] <;> unfold_frames <;> norm_num
+end field
+
+/-- the short cut "local yaw = h − parent yaw, pitch = roll = 0" is NOT `facing h` under a pitched parent: with the
+    parent pitched by 90° (parent yaw 0) and `h = 0` it leaves the object pitched by 90° instead of level -/
+theorem facing_yaw_difference_unsound :
+    ∃ p : Mat3 Rat, p.IsRot ∧ (OPoint.mk ⟨0, 0, 0⟩ p Ang.zero Ang.zero Ang.zero).orientation ≠ rotZ Ang.zero := by
+  refine ⟨rotX ⟨0, 1⟩, ⟨?_, ?_, ?_⟩, ?_⟩
+  · ext <;> unfold_frames <;> norm_num
+  · ext <;> unfold_frames <;> norm_num
+  · unfold_frames; norm_num
+  · rw [inherited_orientation]
+    intro h
+    have := congrArg (fun m : Mat3 Rat => m.r1.y) h
+    revert this
+    unfold_frames; norm_num
 end Scenic.C07
